@@ -402,6 +402,38 @@ func checkC17(c *Ctx) {
 			recs = append(recs, map[string]interface{}{"id": id, "out1": nonBlank(outLines(strings.Join(parts, "\n"))), "out2": nonBlank(outLines(whole.Out)), "err1": false, "err2": false})
 		}
 	}
+	// (d) two fonts that give the same control code different widths: a word measured for one text
+	// must not be reused for a text in the other font
+	if dir, err := newScratch("c17cc"); err == nil {
+		scratchDirs = append(scratchDirs, dir)
+		mkf := func(k int) parser.Fonts {
+			w := map[string]int{" ": 10, "default": 10, "{K}": k, "{PLAYER}": k / 2}
+			return parser.Fonts{Widths: w, MaxLineLength: 100, NumLines: 2}
+		}
+		b, _ := jsonMarshal(parser.FontConfig{DefaultFontID: "A", Fonts: map[string]parser.Fonts{"A": mkf(40), "B": mkf(0)}})
+		fcp := filepath.Join(dir, "twofonts.json")
+		os.WriteFile(fcp, b, 0o644)
+		o := Opts{Optimize: true, FontConfig: fcp}
+		texts := []string{"aaaa {K}bbbb cc", "{PLAYER}aaaa {K}b cc dd", "aa {K}{K} bbbb"}
+		n := 0
+		for _, t1 := range texts {
+			for _, t2 := range texts {
+				for _, fonts := range [][2]string{{"A", "B"}, {"B", "A"}, {"A", "A"}} {
+					st := []string{fmt.Sprintf("text Cc%d_a {\n    format(\"%s\", \"%s\")\n}\n", n, t1, fonts[0]),
+						fmt.Sprintf("script Cc%d_s {\n    msgbox(format(\"%s\", \"%s\"))\n}\n", n, t2, fonts[1])}
+					whole := Compile(st[0]+st[1], o)
+					one0, one1 := Compile(st[0], o), Compile(st[1], o)
+					if whole.Err == nil && one0.Err == nil && one1.Err == nil {
+						id := fmt.Sprintf("cc%d", n)
+						srcOf[id] = st[0] + st[1]
+						// the script's block comes first, then the texts: hoisted text, then the text statement
+						recs = append(recs, map[string]interface{}{"id": id, "out1": nonBlank(outLines(one1.Out + "\n" + one0.Out)), "out2": nonBlank(outLines(whole.Out)), "err1": false, "err2": false})
+					}
+					n++
+				}
+			}
+		}
+	}
 	bad, states, ok := runPairCases(c, "SameOut", "same.ndjson", recs)
 	if !ok {
 		return
